@@ -62,10 +62,16 @@ class Result:
         self.samples: list = []
         self.lines: dict[str, list[int]] = {}
         self.wall = 0.0
+        self.sets: dict[str, set] = {}  # named sets of small hashes: "how many distinct X did the monitors see"
 
     # -- recording -------------------------------------------------------
     def count(self, key: str, n: int = 1):
         self.counters[key] = self.counters.get(key, 0) + n
+
+    def observe(self, name: str, obj, cap: int = 40000):
+        st = self.sets.setdefault(name, set())
+        if len(st) < cap:
+            st.add(h64(obj) & 0xFFFFFFFFFF)
 
     def case(self, case, *, nontrivial: bool, digest=None):
         """Register one evaluated case."""
@@ -108,6 +114,7 @@ class Result:
             "samples": _jsonable(self.samples),
             "lines": self.lines,
             "wall": self.wall,
+            "sets": {k: sorted(v) for k, v in self.sets.items()},
         }
 
     def merge_json(self, d: dict):
@@ -134,6 +141,8 @@ class Result:
             cur.update(ls)
             self.lines[f] = sorted(cur)
         self.wall += d.get("wall", 0.0)
+        for k, v in d.get("sets", {}).items():
+            self.sets.setdefault(k, set()).update(v)
 
 
 def _jsonable(o):
